@@ -1,6 +1,8 @@
 use crate::report::Report;
 use std::sync::Arc;
 
+pub mod c01;
+pub mod c02;
 pub mod c03;
 pub mod c04;
 pub mod c05;
@@ -24,6 +26,8 @@ pub struct Entry {
 
 pub fn lookup(id: &str) -> Option<Entry> {
     Some(match id {
+        "C01" => Entry { id: "C01", run: c01::run, replay: c01::replay },
+        "C02" => Entry { id: "C02", run: c02::run, replay: c02::replay },
         "C03" => Entry { id: "C03", run: c03::run, replay: c03::replay },
         "C04" => Entry { id: "C04", run: c04::run, replay: c04::replay },
         "C05" => Entry { id: "C05", run: c05::run, replay: c05::replay },
